@@ -8,6 +8,7 @@
 #include <unistd.h>
 
 #include <algorithm>
+#include <mutex>
 #include <cstring>
 #include <cerrno>
 #include <ctime>
@@ -29,6 +30,7 @@ void AnnotateIgnoreReadsBegin(const char* f, int l);
 void AnnotateIgnoreReadsEnd(const char* f, int l);
 void AnnotateIgnoreWritesBegin(const char* f, int l);
 void AnnotateIgnoreWritesEnd(const char* f, int l);
+void AnnotateBenignRaceSized(const char* f, int l, const volatile void* mem, size_t size, const char* desc);
 }
 static const unsigned kTsanNoSync = 1;
 static inline void tsan_ignore_begin() { AnnotateIgnoreReadsBegin(__FILE__, __LINE__); AnnotateIgnoreWritesBegin(__FILE__, __LINE__); }
@@ -240,6 +242,16 @@ SchedResult run_tasks(const std::vector<std::function<void()>>& bodies, const Sc
   s.res = &res;
 #if defined(SIM_TSAN)
   s.main_tsan_fiber = __tsan_get_current_fiber();
+  {
+    // std::call_once's two hand-over thread-locals exist once for all tasks here (see __wrap___emutls_get_address):
+    // with real threads every thread has its own, so accesses from different tasks are not a race of the library's.
+    static bool once = false;
+    if (!once) {
+      once = true;
+      AnnotateBenignRaceSized(__FILE__, __LINE__, &std::__once_callable, sizeof std::__once_callable, "per-thread in reality");
+      AnnotateBenignRaceSized(__FILE__, __LINE__, &std::__once_call, sizeof std::__once_call, "per-thread in reality");
+    }
+  }
 #endif
   g = &s;
   depths().clear();
@@ -560,8 +572,17 @@ pthread_t __wrap_pthread_self(void) {
 // (initialised from the template like a new thread's), and thread_local destructors run when the task ends.
 // Outside tasks the real thread's storage is used.  (pthread keys are NOT virtualised: the sanitizer runtimes in
 // this very link find their own per-thread state through pthread_getspecific.)
+// Thread-locals that the library may use but does not define: libstdc++.so exports std::__once_callable and
+// std::__once_call (the hand-over of std::call_once, hence of std::async and std::future) as NATIVE thread-locals,
+// and its __once_proxy reads them natively.  Code compiled with -femulated-tls asks for "__emutls_v.<name>" control
+// objects instead, which nobody defines: define them here and serve the native variables' addresses for them (one
+// instance for all tasks - harmless: call_once sets them and consumes them inside pthread_once, where nothing yields).
+sim::detail::EmuTlsControl sim_ctl_once_callable __asm__("__emutls_v._ZSt15__once_callable") = {sizeof(void*), alignof(void*), {0}, nullptr};
+sim::detail::EmuTlsControl sim_ctl_once_call __asm__("__emutls_v._ZSt11__once_call") = {sizeof(void*), alignof(void*), {0}, nullptr};
 void* __real___emutls_get_address(void* control);
 void* __wrap___emutls_get_address(void* control) {
+  if (control == &sim_ctl_once_callable) return &std::__once_callable;
+  if (control == &sim_ctl_once_call) return &std::__once_call;
   if (!sim::in_task()) return __real___emutls_get_address(control);
   return sim::detail::task_tls(control);
 }
